@@ -114,6 +114,11 @@ def _check(case, env):
             kw["serializer"], kw["deserializer"] = sd.serialize, sd.deserialize
         else:
             kw["serde"] = sd
+    if case.get("client_class"):
+        # the stack is built around a Client subclass that seals values on the way in and unseals them on the way out
+        from vlib import subclasses
+        kw["client_class"] = subclasses.CLIENT_CLASSES[case["client_class"]]
+        kw["client_class_how"] = case.get("client_class_how", "assign")
     c = env.client(kind, **kw)
     desc = "%s cfg=%r serde=%r%s store=%s fetch=%s coll=%s keys=%r" % (
         kind, cfg, spec, " (as serializer=/deserializer= functions)" if case.get("serde_as") == "functions" else "", case["store"], case["fetch"], case.get("coll"), [k if len(k) < 30 else (k[:10], len(k)) for k, _ in items])
@@ -161,6 +166,9 @@ def _check(case, env):
             if st_op == "cas":
                 tok = call(c.gets, k)[1]
                 ok = call(c.cas, k, v, tok, noreply=nr)
+            elif st_op == "setitem":
+                call(c.__setitem__, k, v)          # c[k] = v
+                ok = True
             else:
                 ok = call(getattr(c, st_op), k, v, noreply=nr)
             if ok is not True:
@@ -178,10 +186,12 @@ def _check(case, env):
     def same(a, b):
         return c15.same(a, b)
 
-    if f_op in ("get", "gets", "gat", "gats"):
+    if f_op in ("get", "gets", "gat", "gats", "getitem"):
         for i, (k, v) in enumerate(items):
             if f_op == "get":
                 r = call(c.get, k)
+            elif f_op == "getitem":
+                r = call(c.__getitem__, k)          # c[k]
             elif f_op == "gat":
                 r = call(c.gat, k, expire=100)
             else:
@@ -432,6 +442,20 @@ def grid_cases(tier, seed):
                 yield {"kind": kind, "cfg": {"key_prefix": b"txt:", "allow_unicode_keys": False, "encoding": enc}, "serde": ("text-deserializer",),
                        "items": [["a", ("str", txt)], ["b", ("str", "")], ["c", ("int", 12)]], "absent": ["nope"],
                        "store": "set", "fetch": fetch, "coll": "list", "pieces": None, "noreply": False}
+    # the dict-style API next to the method API, on the plain classes and on stacks built around a Client subclass that seals values
+    for kind in ("client", "pooled", "hash", "hash-pooled"):
+        for cc in (None, "sealing"):
+            for how in ("assign", "classattr"):
+                for store in ("set", "setitem", "set_many", "add", "cas"):
+                    for fetch in ("get", "getitem", "gets", "gat", "gats", "get_many", "gets_many"):
+                        if kind.startswith("hash") and "item" in store + fetch:
+                            continue                # HashClient offers no item syntax
+                        if cc is None and (how == "classattr" or "item" not in store + fetch):
+                            continue
+                        yield {"kind": kind, "cfg": {"key_prefix": b"d:" if store == "set" else b"", "allow_unicode_keys": False, "encoding": "ascii"}, "serde": None,
+                               "items": [["a", ("bytes", b"raw\r\nbytes")], [b"b", ("bytes", b"")], ["c", ("noise", 5000, 1)]], "absent": ["nope"],
+                               "store": store, "fetch": fetch, "coll": "list", "pieces": [4096] if fetch == "get" else None, "noreply": False,
+                               "client_class": cc, "client_class_how": how}
     # every key-collection type x every multi-key fetch x every client kind
     for coll in ("list", "tuple", "set", "dictview", "iter", "generator"):
         for fetch in ("get_many", "gets_many"):
